@@ -933,7 +933,7 @@ pub fn run(prop: &'static str, ctx: &mut Ctx) {
     ctx.stats.extra.insert("deep_chain_sizes".into(), json!(deep_sizes));
     // one wide hub (in- and out-degree above 4096): 0 -> i and i -> 0 for every i, plus a chain among the first spokes
     if prop != "C06" {
-        for &n in &tier.pick(if prop == "C08" { vec![8400usize, 70_000] } else { vec![8400usize] }, vec![4200, 8400, 17_000, 70_000, 140_000]) {
+        for &n in &tier.pick(if prop == "C08" { vec![8400usize, 70_000] } else { vec![8400usize] }, if prop == "C08" { vec![8400usize, 70_000, 140_000] } else { vec![8400usize, 70_000] }) {
             let mut e: Vec<Tri> = (1..n).map(|i| (0 as Key, i as Key, 3 + (i % 4) as EV)).collect();
             e.extend((1..n).map(|i| (i as Key, 0 as Key, 1 + (i % 2) as EV)));
             e.extend((1..40).map(|i| (i as Key, (i + 1) as Key, 9)));
